@@ -5,28 +5,52 @@ import numpy as np
 from common import *
 
 ID = 'C18'
-COQ_FILES = ['Base/Mat.v', 'Base/SumQ.v', 'Base/ListX.v', 'Model/Walks.v', 'Model/Linear.v', 'Proofs/Walks.v', 'Proofs/Linear.v',
-             'Proofs/LinearSpectral.v', 'Properties/C18.v']
-THEOREMS = ['C18_findwalks_power', 'C18_walks_enumeration', 'C18_findwalks_rejects', 'C18_transP_stochastic',
-            'C18_mfpt_equation', 'C18_diffusion_eff_def', 'C18_pagerank_equation', 'C18_pagerank_positive',
-            'C18_uniform_prior', 'C18_subgraph_poly', 'C18_subgraph_from_decomposition',
+COQ_FILES = ['Base/Mat.v', 'Base/SumQ.v', 'Base/ListX.v', 'Model/Walks.v', 'Model/Linear.v', 'Proofs/Walks.v', 'Proofs/WalksBound.v',
+             'Proofs/Linear.v', 'Proofs/LinearSpectral.v', 'Proofs/LinearFull.v', 'Proofs/LinearMarkov.v', 'Proofs/LinearDim.v',
+             'Proofs/LinearExist.v', 'Proofs/LinearSelect.v', 'Proofs/LinearRun.v', 'Properties/C18.v']
+THEOREMS = ['C18_findwalks_power', 'C18_walks_enumeration', 'C18_findwalks_rejects', 'C18_findwalks_exact_range',
+            'C18_transP_stochastic', 'C18_mfpt_equation', 'C18_stationary_positive_unique', 'C18_mfpt_connected',
+            'C18_mfpt_select_spec', 'C18_diffusion_eff_def', 'C18_pagerank_equation', 'C18_pagerank_positive',
+            'C18_uniform_prior', 'C18_pagerank_exists_unique', 'C18_pagerank_any', 'C18_prior_normalised',
+            'C18_run_pagerank_sound', 'C18_run_mfpt_sound',
+            'C18_subgraph_poly', 'C18_subgraph_from_decomposition',
             'C18_subgraph_truncated_exp_partial', 'C18_eigvec_abs_ok_partial']
 RULE = ('families: cycles C3..C9, paths, stars, complete graphs, complete bipartite K_{a,b}, circulant / cube / Petersen regular '
         'graphs, disjoint copies of those (repeated eigenvalues; spectral measures and findwalks only), random connected '
         'undirected graphs with integer weights 1..4, random strongly connected digraphs (directed cycle + chords, weights '
         '1..3) for the random-walk measures; damping d in {.1,.5,.85,.99} and random in (0,1); random positive priors. '
-        'Every defining equation is evaluated on the implementation output in binary64 with relative tolerance 1e-8; '
-        'findwalks is compared EXACTLY with numpy.linalg.matrix_power and with the extracted model. Exact instances for the '
-        'extracted model: P, w, Z / r\' computed with fractions.Fraction by Gaussian elimination, rational orthogonal V by the '
-        'Cayley transform. non-trivial = at least one edge; distinct by hash of (function, matrix, parameter)')
+        'findwalks additionally: LARGE graphs n = 11..20 (K_12..K_18, K_{8,8}, circulant, dense/sparse random) compared with '
+        'Python-int matrix powers - exact below 2^53, rounded beyond (known finding findwalks:exact53) - and bool / int8 / '
+        'uint8 / int32 / int64 input arrays (known finding findwalks:dtype). pagerank additionally: random digraphs with '
+        'EMPTY COLUMNS (dangling nodes; oracle = the dangling-redistribution equation), priors with zero entries, integer '
+        'input arrays, d = 0. mean_first_passage_time additionally: the eigenpair-selection branch (ok / ambiguous truth '
+        'value / tolerance) predicted by the extracted model from aux = |eig - 1| on connected AND on disconnected / '
+        'reducible inputs. Every defining equation is evaluated on the implementation output in binary64 with relative '
+        'tolerance 1e-8; findwalks is compared EXACTLY with numpy.linalg.matrix_power / Python-int powers and with the '
+        'extracted model. The extracted model COMPUTES mfpt / ediff / gediff and pagerank from the input alone (Gauss-Jordan '
+        'over Q in Gallina, result re-checked against the defining equations inside the run) and is compared with the '
+        'implementation (1e-8) and, for pagerank, exactly with an independent Fraction elimination; rational orthogonal V '
+        'by the Cayley transform for the spectral identity. non-trivial = at least one edge; distinct by hash of '
+        '(function, matrix, parameter)')
 ASSUMES = ['LAPACK results (eig, inv, solve, eigh) enter the theorems only through their defining equations; whether LAPACK meets '
-           'them is checked numerically (residuals, tolerance 1e-8 relative), not proved',
+           'them is checked numerically (residuals, tolerance 1e-8 relative), not proved. For pagerank and mean_first_passage_time '
+           'the solutions of those equations are PROVED to exist and to be unique (C18_pagerank_exists_unique, C18_mfpt_connected), '
+           'so the assumption is only "the routine returns a solution of the system it is given, up to rounding"',
+           'findwalks: the model counts in Z, the code in a float64 array; they coincide while twalk < 2^53 '
+           '(C18_findwalks_exact_range gives the sufficient condition n^2 (1 + D + .. + D^(n-1)) < 2^53, D = largest in-degree); '
+           'beyond that the code returns rounded counts (known finding findwalks:exact53, K_15 / K_16 are the first complete graphs)',
            'C18_eigvec_abs_ok_partial assumes the variational (Rayleigh) characterisation of the largest eigenvalue; '
            'C18_subgraph_*: the limit of the truncated exponential series is not proved (full statements are Definitions in Properties/C18.v)',
-           'pagerank: graphs with an empty column (dangling node) are outside the stated equation (D^-1 undefined) and are not generated',
+           'C18_diffusion_eff_def is a definitional unfolding of the two lines of the code (no assurance beyond the correspondence run)',
+           'the executable model of mfpt / pagerank is a SECOND ORACLE computed from the input alone by exact elimination, not a '
+           'step-by-step model of LAPACK; only findwalks, the pagerank set-up (deg, deg==0, D^-1, B, b, prior, normalisation) and the '
+           'mfpt selection / final formula are modelled statement by statement',
+           'mean_first_passage_time on a disconnected / reducible input is outside the property; observed there: ValueError '
+           '"truth value of an array ... is ambiguous" (two bit-equal eigenvalues 1) instead of the intended message, or inf/nan output; '
+           'recorded as a robustness note, only the selection branch is compared with the model',
            'findwalks on a 1-node graph raises IndexError (Wq has no slice for length 1); the model returns None there; not counted as a violation']
 TRUSTED = ['floating-point residual checks with tolerance 1e-8 * scale on the implementation output (numerical evidence, not proof)',
-           'scipy.linalg.expm and numpy.linalg.matrix_power / solve as independent numerical oracles']
+           'scipy.linalg.expm and numpy.linalg.matrix_power / solve / eig (re-run by the harness to obtain aux) as independent numerical oracles']
 TOL = 1e-8
 
 
@@ -160,6 +184,60 @@ def enc_qb(x):
     return '%s/%s' % (bin(f.numerator) if f.numerator else '0', bin(f.denominator))
 
 
+def int_powers(B, qmax):
+    """[None, B, B^2, ..] with Python-int entries (object arrays): no overflow, no rounding"""
+    Bo = np.array(np.asarray(B).astype(int).tolist(), dtype=object); P = Bo.copy(); out = [None, Bo]
+    for _ in range(2, qmax + 1):
+        P = P.dot(Bo); out.append(P)
+    return out
+
+
+def to_int_obj(X):
+    return np.array([[int(x) for x in row] for row in np.asarray(X)], dtype=object)
+
+
+def large_graphs(r, thorough):
+    out = [('K12', complete(12)), ('K14', complete(14)), ('K15', complete(15)), ('K16', complete(16)), ('K18', complete(18)),
+           ('K8,8', kab(8, 8)), ('circulant20', circulant(20, (1, 2)))]
+    for n, p in ((11, 0.8), (13, 0.8), (16, 0.85), (20, 0.12)) + (((12, 0.5), (17, 0.9), (19, 0.3)) if thorough else ()):
+        out.append(('random%d' % n, (r.rand(n, n) < p).astype(int)))
+    return out
+
+
+def rand_dangling(r, n):
+    """digraph with integer weights and at least one EMPTY COLUMN (a node nothing points to never matters here: deg = column sum)"""
+    A = (r.rand(n, n) < r.choice([0.3, 0.6])) * r.randint(1, 4, (n, n))
+    for j in r.choice(n, size=int(r.randint(1, max(2, n // 2))), replace=False):
+        A[:, j] = 0
+    if not A.any():
+        A[0, (int(np.flatnonzero(A.sum(axis=0) == 0)[0]) + 1) % n] = 1
+    return A.astype(int)
+
+
+def mfpt_outcome(bct, Af):
+    import warnings
+    with warnings.catch_warnings():
+        warnings.simplefilter('ignore')
+        try:
+            return 'ok', call(bct.mean_first_passage_time, Af.copy())
+        except np.linalg.LinAlgError:
+            return 'ok', None          # the selection lines were passed; inv() found I - P + W singular afterwards
+        except ValueError as e:
+            return ('ambiguous' if 'ambiguous' in str(e) else 'tolerance' if 'Cannot find eigenvalue' in str(e) else 'ValueError: ' + str(e)[:80]), None
+        except Exception as e:
+            return type(e).__name__ + ': ' + str(e)[:80], None
+
+
+def selection_aux(Af):
+    """aux exactly as the routine forms it (same LAPACK calls on the same bits)"""
+    import warnings
+    with warnings.catch_warnings():
+        warnings.simplefilter('ignore')
+        P = np.linalg.solve(np.diag(np.sum(Af, axis=1)), Af)
+        D, V = np.linalg.eig(P.T)
+        return np.abs(D - 1)
+
+
 def run(ctx):
     import bct
     import scipy.linalg
@@ -212,6 +290,50 @@ def run(ctx):
             q = int(r.randint(1, n))
             lines.append('walkcount %s %d' % (enc_mat(A), q)); pend.append(('walkcount', case, (q, np.linalg.matrix_power((A != 0).astype(np.int64), q))))
 
+    # findwalks on non-float64 input arrays: np.dot works in the dtype of the input (bool: logical; small ints: wrap-around)
+    dt_graphs = [('complete3', complete(3)), ('complete4', complete(4)), ('complete8', complete(8)), ('cube', cube()), ('complete12', complete(12))]
+    for t in range(ctx.scale(3, 12)):
+        dt_graphs.append(('random', (r.rand(6, 6) < 0.6).astype(int)))
+    for fam, A in dt_graphs:
+        n = len(A); pw = int_powers(A != 0, n - 1)
+        for dt in (bool, np.int8, np.uint8, np.int32, np.int64):
+            case = {'fn': 'findwalks', 'family': 'dtype:' + fam, 'dtype': np.dtype(dt).name, 'A': A.tolist()}
+            ctx.case(case, nontrivial=True); ctx.count('findwalks:dtype:' + np.dtype(dt).name)
+            try:
+                Wq, twalk, wlq = call(bct.findwalks, A.astype(dt))
+            except Exception as e:
+                ctx.fail('findwalks:dtype', 'raised %r on a %s array' % (e, np.dtype(dt).name), case); continue
+            bad = next((q for q in range(1, n) if not (to_int_obj(Wq[:, :, q]) == pw[q]).all()), None)
+            ctx.check(bad is None, 'findwalks:dtype', 'Wq[:,:,%s] is not the number of walks of that length when the adjacency matrix is a %s array' % (bad, np.dtype(dt).name), case)
+
+    # findwalks on LARGE graphs against Python-int powers: exact below 2^53, correctly rounded beyond
+    for fam, A in large_graphs(r, ctx.thorough):
+        n = len(A); B = (A != 0).astype(int)
+        case = {'fn': 'findwalks', 'family': 'large:' + fam, 'A': A.tolist()}
+        ctx.case(case, nontrivial=True); ctx.count('findwalks:large')
+        pw = int_powers(B, n - 1)
+        true_wlq = [0] + [int(pw[q].sum()) for q in range(1, n)]; true_tw = sum(true_wlq)
+        exact_regime = true_tw < 2 ** 53
+        impl = None
+        try:
+            Wq, twalk, wlq = call(bct.findwalks, A.astype(float), _t=30.0)
+            impl = (Wq, twalk, wlq)
+        except Exception as e:
+            ctx.fail('findwalks:raises', 'raised %r' % (e,), case)
+        if impl is not None and ctx.check(Wq.shape == (n, n, n) and Wq.dtype == np.float64, 'findwalks:shape', 'Wq is not a float64 n x n x n array', case):
+            bad = next((q for q in range(1, n) if not (to_int_obj(Wq[:, :, q]) == pw[q]).all()), None)
+            tot_ok = int(twalk) == true_tw and [int(x) for x in wlq] == true_wlq
+            if exact_regime:
+                ctx.check(bad is None and not np.any(Wq[:, :, 0]), 'findwalks:power', 'Wq[:,:,%s] is not the number of walks of that length (all counts are below 2^53 here)' % bad, case)
+                ctx.check(tot_ok, 'findwalks:totals', 'twalk / wlq are not the sums of Wq (all below 2^53 here)', case)
+            else:
+                if bad is not None or not tot_ok:
+                    ctx.fail('findwalks:exact53', 'counts beyond 2^53 are rounded: first inexact slice q=%s, twalk exact=%s' % (bad, int(twalk) == true_tw), case)
+                rel = max([0.0] + [float(max(abs(F(int(Wq[i, j, q])) - pw[q][i, j]) / max(1, pw[q][i, j]) for i in range(n) for j in range(n))) for q in range(1, n)])
+                relt = float(abs(F(int(twalk)) - true_tw) / true_tw)
+                ctx.check(rel <= 1e-13 and relt <= 1e-13 and not np.any(Wq[:, :, 0]), 'findwalks:rounded', 'beyond 2^53 the counts are not even the rounded walk numbers: relative error %.3g / %.3g' % (rel, relt), case)
+        lines.append('findwalksx ' + enc_mat(A)); pend.append(('findwalksx', case, (impl, pw, true_wlq, true_tw, exact_regime)))
+
     # ------------------------------------------------------------ mean first passage time / diffusion efficiency
     rw = [(f, A) for f, A in S]
     for t in range(nrand):
@@ -249,55 +371,102 @@ def run(ctx):
                       'diffusion_efficiency:inverse', 'ediff is not 1/mfpt off the diagonal with a zero diagonal', case)
             ctx.check(abs(ge - E[off].sum() / (n * n - n)) <= 1e-12 * max(1, abs(ge)) and abs(ge - (1 / H[off]).sum() / (n * n - n)) <= 1e-7,
                       'diffusion_efficiency:mean', 'gediff is not the mean of the off-diagonal entries', case)
-        # exact instance for the extracted model
-        if n <= 6:
-            Aq = fq_mat(A)
-            Pq = [[Aq[i][j] / sum(Aq[i]) for j in range(n)] for i in range(n)]
-            # stationary w: (P^T - I) w = 0 with the last equation replaced by sum w = 1
-            Sy = [[Pq[j][i] - (1 if i == j else 0) for j in range(n)] for i in range(n)]
-            Sy[n - 1] = [F(1)] * n
-            w = fsolve(Sy, [[F(0)]] * (n - 1) + [[F(1)]])
-            if w is not None:
-                w = [x[0] for x in w]
-                Am = [[(1 if i == j else 0) - Pq[i][j] + w[j] for j in range(n)] for i in range(n)]
-                Z = fsolve(Am, feye(n))
-                if Z is not None:
-                    lines.append('mfpt %s %s %s' % (enc_mat(Aq, enc_qb), enc_list(w, enc_qb), enc_mat(Z, enc_qb)))
-                    pend.append(('mfpt', case, (M, E, ge)))
+        # the extracted model computes w, Z, M, ediff, gediff from A alone (exact elimination over Q)
+        if n <= 7:
+            lines.append('mfptc %s' % enc_mat(fq_mat(A), enc_qb)); pend.append(('mfptc', case, (M, E, ge)))
+        # the selection branch predicted by the model from aux = |eig(P^T) - 1|
+        aux = selection_aux(Af)
+        if np.all(np.isfinite(aux)):
+            lines.append('mfptsel %s %s' % (enc_qb(F(10e-3)), enc_list([F(float(x)) for x in aux], enc_qb)))
+            pend.append(('mfptsel', case, ('ok', [float(x) for x in aux])))
+
+    # outside the property (robustness note): disconnected / reducible inputs - only the selection branch is compared
+    rej = [('disconnected', disjoint(complete(2), complete(2))), ('disconnected', disjoint(cycle(3), cycle(3))),
+           ('disconnected', disjoint(cycle(3), path(3))), ('disconnected', disjoint(kab(1, 3), complete(2))),
+           ('reducible', np.array([[0, 1, 0], [0, 0, 1], [0, 1, 0]])), ('reducible', np.array([[0, 1, 1, 0], [1, 0, 0, 1], [0, 0, 0, 1], [0, 0, 1, 0]]))]
+    for t in range(ctx.scale(6, 40)):
+        a, b = int(r.randint(2, 5)), int(r.randint(2, 5))
+        rej.append(('disconnected', disjoint(rand_conn_und(r, a, 3), rand_conn_und(r, b, 3))))
+    for fam, A in rej:
+        Af = A.astype(float)
+        case = {'fn': 'mean_first_passage_time:selection', 'family': fam, 'A': A.tolist()}
+        ctx.case(case, nontrivial=True); ctx.count('mfpt:reject:' + fam)
+        out, _ = mfpt_outcome(bct, Af)
+        ctx.count('mfpt:reject-outcome:' + out.split(':')[0])
+        aux = selection_aux(Af)
+        if np.all(np.isfinite(aux)):
+            lines.append('mfptsel %s %s' % (enc_qb(F(10e-3)), enc_list([F(float(x)) for x in aux], enc_qb)))
+            pend.append(('mfptsel', case, (out, [float(x) for x in aux])))
 
     # ------------------------------------------------------------ pagerank
-    for fam, A in rw:
+    def pagerank_oracle(A, d, prior, pr, case):
+        """clauses on the implementation output; with empty columns the equation is the dangling-redistribution one"""
+        n = len(A); Af = np.asarray(A, dtype=float)
+        f = np.ones(n) / n if prior is None else np.asarray(prior, dtype=float) / np.sum(prior)
+        if not ctx.check(isinstance(pr, np.ndarray) and pr.shape == (n,) and np.all(np.isfinite(pr)), 'pagerank_centrality:shape', 'not a finite vector of length n', case):
+            return
+        deg = Af.sum(axis=0); empty = deg == 0
+        Mx = Af / np.where(empty, 1.0, deg)
+        if not empty.any():
+            res = np.abs(pr - (d * Mx @ pr + (1 - d) * f)).max()
+            ctx.check(res <= TOL, 'pagerank_centrality:equation', 'r = d A D^-1 r + (1-d) f residual %.3g' % res, case)
+        else:
+            res = np.abs(pr - (d * (Mx @ pr + pr[empty].sum() * f) + (1 - d) * f)).max()
+            ctx.check(res <= TOL, 'pagerank_centrality:dangling', 'with empty columns r = d (A D^-1 r + r(empty) f) + (1-d) f residual %.3g' % res, case)
+        ctx.check(abs(pr.sum() - 1) <= TOL, 'pagerank_centrality:sum', 'does not sum to one', case)
+        ctx.check(np.all(pr[f > 0] > 0) and np.all(pr >= -TOL), 'pagerank_centrality:positive', 'not positive', case)
+
+    def pr_call(A, d, prior):
+        import warnings
+        with warnings.catch_warnings():
+            warnings.simplefilter('ignore')
+            return call(bct.pagerank_centrality, A, d, falff=None if prior is None else np.array(prior, dtype=float))
+
+    pr_graphs = [(f, A) for f, A in rw if len(A) >= 2 and connected(A) and not np.any(A.sum(axis=0) == 0)]
+    for fam, A in pr_graphs:
         n = len(A)
-        if n < 2 or not connected(A) or np.any(A.sum(axis=0) == 0):
-            continue
         for d in ([0.1, 0.5, 0.85, 0.99] if fam != 'random_und_w' else [float(r.uniform(0.02, 0.98))]):
             use_prior = r.rand() < 0.3
             prior = r.randint(1, 6, n).astype(float) if use_prior else None
             case = {'fn': 'pagerank_centrality', 'family': fam, 'A': A.tolist(), 'd': d, 'falff': None if prior is None else prior.tolist()}
             ctx.case(case, nontrivial=True); ctx.count('pagerank:' + fam)
             try:
-                pr = call(bct.pagerank_centrality, A.astype(float), d, falff=None if prior is None else prior.copy())
+                pr = pr_call(A.astype(float), d, prior)
             except Exception as e:
                 ctx.fail('pagerank_centrality:raises', 'raised %r' % (e,), case); continue
-            f = np.ones(n) / n if prior is None else prior / prior.sum()
-            ok = ctx.check(pr.shape == (n,) and np.all(np.isfinite(pr)), 'pagerank_centrality:shape', 'not a finite vector of length n', case)
-            if ok:
-                Mx = A.astype(float) / A.sum(axis=0, keepdims=True)
-                res = np.abs(pr - (d * Mx @ pr + (1 - d) * f)).max()
-                ctx.check(res <= TOL, 'pagerank_centrality:equation', 'r = d A D^-1 r + (1-d) f residual %.3g' % res, case)
-                ctx.check(abs(pr.sum() - 1) <= TOL, 'pagerank_centrality:sum', 'does not sum to one', case)
-                ctx.check(np.all(pr > 0), 'pagerank_centrality:positive', 'not positive', case)
-        # exact instance (default prior, dyadic d)
-        if n <= 6:
-            dq = [F(1, 2), F(3, 4), F(1, 8), F(27, 32)][int(r.randint(0, 4))]
-            Aq = fq_mat(A); deg = [sum(Aq[i][j] for i in range(n)) for j in range(n)]
-            B = [[(1 if i == j else 0) - dq * Aq[i][j] / deg[j] for j in range(n)] for i in range(n)]
-            rp = fsolve(B, [[(1 - dq) / n] for _ in range(n)])
-            if rp is not None:
-                pr = call(bct.pagerank_centrality, A.astype(float), float(dq))
-                case = {'fn': 'pagerank_centrality', 'family': fam, 'A': A.tolist(), 'd': str(dq), 'exact': True}
-                lines.append('pagerank %s %s %s' % (enc_mat(Aq, enc_qb), enc_qb(dq), enc_list([x[0] for x in rp], enc_qb)))
-                pend.append(('pagerank', case, pr))
+            pagerank_oracle(A, d, prior, pr, case)
+    # exact instances: the extracted model computes everything from (A, d, falff); dangling nodes, priors with zeros, int arrays
+    ex_graphs = [(f, A) for f, A in pr_graphs if len(A) <= 7]
+    for t in range(ctx.scale(40, 300)):
+        ex_graphs.append(('dangling', rand_dangling(r, int(r.randint(2, 8)))))
+    ex_graphs += [('dangling', np.array([[0, 0, 1], [1, 0, 0], [1, 0, 0]])), ('dangling', np.array([[0, 1], [0, 0]])), ('dangling', np.array([[0, 0], [0, 0]]))]
+    for fam, A in ex_graphs:
+        n = len(A); Aq = fq_mat(A)
+        dq = [F(1, 2), F(3, 4), F(1, 8), F(27, 32), F(127, 128), F(0)][int(r.randint(0, 6))]
+        mode = int(r.randint(0, 4))        # 0,1: default prior; 2: positive integer prior; 3: prior with zero entries
+        prior = None
+        if mode == 2:
+            prior = [int(x) for x in r.randint(1, 6, n)]
+        elif mode == 3:
+            prior = [int(x) for x in r.randint(0, 3, n)]
+            if not any(prior):
+                prior[int(r.randint(0, n))] = 2
+        as_int = fam == 'dangling' and r.rand() < 0.3 and all(float(x).is_integer() for row in A for x in row)
+        case = {'fn': 'pagerank_centrality', 'family': fam, 'A': np.asarray(A).tolist(), 'd': str(dq), 'falff': prior, 'exact': True, 'int_array': bool(as_int)}
+        ctx.case(case, nontrivial=bool(np.any(A))); ctx.count('pagerank:exact:' + fam); ctx.count('pagerank:prior-mode-%d' % mode)
+        try:
+            pr = pr_call(np.asarray(A).astype(int if as_int else float), float(dq), prior)
+        except Exception as e:
+            ctx.fail('pagerank_centrality:raises', 'raised %r' % (e,), case); continue
+        pagerank_oracle(A, float(dq), prior, pr, case)
+        # independent exact solution (Python elimination), for an exact comparison with the Gallina elimination
+        deg = [sum(Aq[i][j] for i in range(n)) for j in range(n)]; deg = [x if x != 0 else F(1) for x in deg]
+        fq = [F(1, n)] * n if prior is None else [F(x, sum(prior)) for x in prior]
+        Bq = [[(1 if i == j else 0) - dq * Aq[i][j] / deg[j] for j in range(n)] for i in range(n)]
+        rp = fsolve(Bq, [[(1 - dq) * fq[i]] for i in range(n)])
+        rq = None if rp is None else [x[0] / sum(y[0] for y in rp) for x in rp]
+        lines.append('pagerankc %s %s %s' % (enc_mat(Aq, enc_qb), enc_qb(dq), '0' if prior is None else '1 ' + enc_list([F(x) for x in prior], enc_qb)))
+        pend.append(('pagerankc', case, (pr, rq)))
 
     # ------------------------------------------------------------ subgraph centrality / eigenvector centrality
     sp = S + Cp
@@ -384,8 +553,31 @@ def run(ctx):
             q, want = impl
             if not np.array_equal(np.array(m), want):
                 ctx.mismatch('walks', 'number of enumerated walks of length %d differs from A^%d' % (q, q), case, m, want)
-        elif kind == 'mfpt':
+        elif kind == 'findwalksx':
+            impl_t, pw, true_wlq, true_tw, exact_regime = impl
+            n = len(case['A'])
+            if m is None:
+                ctx.mismatch('findwalks', 'model fails on a graph with n >= 2', case); continue
+            MW = dec_deep(m[0], dec_z); mt = dec_z(m[1]); ml = dec_deep(m[2], dec_z); ex, bd = m[3], m[4]
+            # the model against the Python-int powers (two exact oracles) and its exactness flags
+            if not (all((np.array(MW[q], dtype=object) == pw[q]).all() for q in range(1, n)) and mt == true_tw and ml == true_wlq
+                    and ex == exact_regime and (not bd or ex)):
+                ctx.mismatch('findwalks:model-vs-int-powers', 'extracted model differs from Python-int matrix powers / exactness flag wrong', case, [mt, ex, bd], [true_tw, exact_regime])
+                continue
+            if impl_t is None:
+                continue
+            Wq, twalk, wlq = impl_t
+            if ex:      # everything is below 2^53: the float run must coincide with the model
+                same = all((to_int_obj(Wq[:, :, q]) == np.array(MW[q], dtype=object)).all() for q in range(n)) and int(twalk) == mt and [int(x) for x in wlq] == ml
+                if not same:
+                    ctx.mismatch('findwalks', 'model and implementation differ although every count is below 2^53', case, mt, float(twalk))
+            else:       # rounded regime: agreement to binary64 precision only
+                if not (abs(F(int(twalk)) - mt) <= mt * F(1, 10 ** 13)):
+                    ctx.mismatch('findwalks', 'model and implementation differ by more than rounding beyond 2^53', case, mt, float(twalk))
+        elif kind in ('mfpt', 'mfptc'):
             M, E, ge = impl
+            if m is None:
+                ctx.mismatch('mean_first_passage_time:exact', 'the exact elimination found the chain singular on a connected network', case); continue
             hyp, eqn, MM, ME, mg = m
             if not (hyp and eqn):
                 ctx.mismatch('mean_first_passage_time:exact', 'exact instance: hypotheses %s, equation %s' % (hyp, eqn), case); continue
@@ -393,13 +585,23 @@ def run(ctx):
             sc = max(1.0, np.abs(MM).max())
             if not (np.abs(MM - M).max() <= 1e-9 * sc * 10 and np.abs(ME - E).max() <= 1e-9 * 10 and abs(float(dec_q(mg)) - ge) <= 1e-9 * 10):
                 ctx.mismatch('mean_first_passage_time', 'exact rational M / ediff / gediff differ from the implementation beyond 1e-8', case, MM, M)
-        elif kind == 'pagerank':
-            hyp, fx, mr = m
-            mr = np.array([float(dec_q(x)) for x in mr])
-            if not (hyp and fx):
-                ctx.mismatch('pagerank_centrality:exact', 'exact instance: hypotheses %s, fixed point %s' % (hyp, fx), case); continue
-            if not np.abs(mr - impl).max() <= 1e-9:
-                ctx.mismatch('pagerank_centrality', 'exact rational solution differs from the implementation beyond 1e-9', case, mr, impl)
+        elif kind == 'mfptsel':
+            out, aux = impl
+            want = {0: 'ok', 1: 'ambiguous', 2: 'tolerance'}.get(m[0], 'empty')
+            if want != out:
+                ctx.mismatch('mean_first_passage_time:selection', 'eigenpair selection: model predicts %s, implementation: %s' % (want, out), case, want, out)
+        elif kind == 'pagerankc':
+            pr, rq = impl
+            if m is None or rq is None:
+                ctx.mismatch('pagerank_centrality:exact', 'exact elimination reports a singular system (model %s, python %s)' % (m is None, rq is None), case); continue
+            hyp, eqn, mr, ms, mdg = m
+            mrq = [dec_q(x) for x in mr]
+            if not (hyp and eqn):
+                ctx.mismatch('pagerank_centrality:exact', 'exact instance: solver check %s, equation %s' % (hyp, eqn), case); continue
+            if mrq != rq:
+                ctx.mismatch('pagerank_centrality:exact', 'Gallina elimination and Python elimination differ', case, [str(x) for x in mrq], [str(x) for x in rq]); continue
+            if not (isinstance(pr, np.ndarray) and pr.shape == (len(mrq),) and np.abs(np.array([float(x) for x in mrq]) - pr).max() <= 1e-9):
+                ctx.mismatch('pagerank_centrality', 'exact rational solution differs from the implementation beyond 1e-9', case, [float(x) for x in mrq], pr)
         elif kind == 'subgraph':
             hyp, a, b = m
             if not hyp or a != b:
